@@ -440,6 +440,18 @@ def run(prop, tier, seed):
             res.add_mc(cfg, r)
             if not r.get("ok"):
                 raise V.ToolError(f"MC_Painter {cfg}: {r.get('violated') or r.get('error')}")
+        # the padding side of the painter (Columns.tla): with a span that covers every label the
+        # cells of every row stay under the headings; the span of the pinned code (defect F11:
+        # `t=N` labels not counted) is the expected-to-fail variant
+        r = V.tlc_mc("MC_Columns", "Columns_q" if tier == "quick" else "Columns_t", workers=8)
+        res.add_mc("Columns", r)
+        if not r.get("ok"):
+            raise V.ToolError(f"MC_Columns: {r.get('violated') or r.get('error')}")
+        r = V.tlc_mc("MC_Columns", "Columns_v_labels_of_the_tree", workers=1, coverage=False)
+        res.extra.setdefault("necessity_variants", []).append(
+            {"config": "Columns_v_labels_of_the_tree", "expected": ["NameColumnAligned"], "got": r.get("violated")})
+        if r.get("ok") or "NameColumnAligned" not in str(r.get("violated")):
+            raise V.ToolError(f"MC_Columns variant did not fail as expected: {r.get('violated') or r.get('error')}")
         sr = shape_runs(tier, seed)
         by_name.update({name: (prog, cfg) for prog, cfg, name in sr})
         p3, recs3 = execute(sr, f"{prop}.shapes")
